@@ -40,6 +40,9 @@ def build_pool(seed, n):
         for pre in ("", "r", "b", "rb", "u", "p", "pr", "R", "Br"):
             for body in ("a\\n", "\\d", "\\x41" if "b" in pre.lower() else "\\N{BULLET}", "it"):
                 pool.append(f"y = {pre}{q}{body}{q}\n")
+    from .c14 import concat_items
+
+    pool += concat_items()
     for sp in ("`a*`", "g`*.py`", "r`\\d+`", "p`x`", "f`{a}`", "@foo`bar`", "rp`q`"):
         pool.append(f"z = {sp}\n")
     for num in ("0x1F", "0o17", "0b11", "1_000", "1e5", "1.5j", "0X1f", "1E5", "1J"):
@@ -306,7 +309,7 @@ def run_shard(shard):
 
 def plan(tier, seed):
     q = tier == "quick"
-    pool = 650 if q else 2000
+    pool = 820 if q else 2200
     shards = []
     for i in range(10 if q else 50):
         shards.append({"kind": "history", "seed": seed, "idx": i, "pool": pool, "histories": 2 if q else 4, "length": 500})
